@@ -175,6 +175,9 @@ func engineCells(rc *RunCtx) *Outcome {
 			K = 8
 		}
 	}
+	if rc.W.Choose(150) == 149 {
+		return bigVectorisedRun(rc)
+	}
 	c := drawCellCase(rc.W, maxCells, maxT)
 	width := len(c.stateRows[0])
 	c.reference()
@@ -354,6 +357,19 @@ func engineCells(rc *RunCtx) *Outcome {
 				}
 			}
 		}
+		// "touches nothing else" includes the arrays' own descriptions: a caller that reuses an
+		// argument object for a later run must find it with the extents it had
+		for _, sh := range []struct {
+			name string
+			got  []int
+			want []int
+		}{{"inputs", inputs.Shape(), []int{c.I, nIn, c.T}}, {"parameters", params.Shape(), []int{len(c.cols[0]), c.P}},
+			{"states", states.Shape(), []int{c.N, width}}, {"outputs", outputs.Shape(), []int{oN, oO, oT}}} {
+			if !eqInts(sh.got, sh.want) {
+				o.fail("argument-shape-changed", c.Model+"/shape", "%s: after Run the %s array reports shape %v, it was %v", c.Model, sh.name, sh.got, sh.want)
+				return o
+			}
+		}
 		if j := bitsEqSlice(flat3(inputs), iv); j >= 0 {
 			o.fail("inputs-modified", c.Model+"/inputs", "%s: Run modified its inputs at flat index %d", c.Model, j)
 			return o
@@ -454,4 +470,88 @@ func drawSibling(w *simrt.Tape, a *cellCase) *cellCase {
 	}
 	c.padRows()
 	return c
+}
+
+
+// bigVectorisedRun: one run in 150 is large - 256 to 2048 cells with a million or more
+// cell-timesteps in total (where an implementation might start batching cells or chunking series),
+// a cheap model, few parameter sets and input blocks, so that a handful of one-cell reference runs
+// covers every cell.  The cell goroutines run on the real scheduler here.
+func bigVectorisedRun(rc *RunCtx) *Outcome {
+	o := &Outcome{}
+	w := rc.W
+	name := []string{"RunoffCoefficient", "GR4J", "Surm", "Simhyd", "Muskingum", "Sum", "Lag"}[w.Choose(7)]
+	desc := sim.Catalog[name]().Description()
+	N := []int{256, 512, 1000, 1024, 2048}[w.Choose(5)]
+	T := (1 << 20) / N * (1 + w.Choose(2))
+	if w.Choose(3) == 0 {
+		T += 1 + w.Choose(5)
+	}
+	P := []int{1, 3}[w.Choose(2)]
+	I := []int{1, 2}[w.Choose(2)]
+	cols, maxDim := drawColumns(w, name, P)
+	for j := 1; j < P; j++ {
+		domains.ForceStateWidthClass(name, cols[j], domains.StateWidthClass(name, cols[0]))
+	}
+	var blocks [][][]float64
+	for b := 0; b < I; b++ {
+		blocks = append(blocks, domains.GenInputs(w, name, cols[b%P], maxDim, T))
+	}
+	nIn, nOut := len(desc.Inputs), len(desc.Outputs)
+	o.Sample = map[string]interface{}{"model": name, "cells": N, "timesteps": T, "param_sets": P, "input_blocks": I, "large_run": true}
+	rows := make([][]float64, P)
+	for j := range rows {
+		rows[j] = initialStateRow(name, desc, cols[j], maxDim)
+	}
+	width := len(rows[0])
+	type ref struct{ out, fin []float64 }
+	refs := map[[2]int]ref{}
+	for i := 0; i < N && len(refs) < P*I; i++ {
+		k := [2]int{i % P, i % I}
+		if _, ok := refs[k]; !ok {
+			ro, rf := refRun(name, desc, cols[k[0]], maxDim, rows[k[0]], blocks[k[1]], T)
+			refs[k] = ref{ro, rf}
+		}
+	}
+	iv := make([]float64, I*nIn*T)
+	for b := 0; b < I; b++ {
+		for x := 0; x < nIn; x++ {
+			copy(iv[(b*nIn+x)*T:], blocks[b][x])
+		}
+	}
+	sv := make([]float64, 0, N*width)
+	for i := 0; i < N; i++ {
+		sv = append(sv, rows[i%P]...)
+	}
+	inputs, states, outputs := mk3(false, I, nIn, T, iv), mk2(false, N, width, sv), mk3(false, N, nOut, T, nil)
+	var escaped interface{}
+	func() {
+		defer func() { escaped = recover() }()
+		setupModel(name, paramMatrix(false, cols)).Run(inputs, states, outputs)
+	}()
+	if escaped != nil {
+		o.fail("process-crash", name+"/crash", "%s: a run of %d cells x %d timesteps panicked: %v", name, N, T, escaped)
+		return o
+	}
+	for i := 0; i < N; i++ {
+		r := refs[[2]int{i % P, i % I}]
+		for b := 0; b < nOut; b++ {
+			for t := 0; t < T; t++ {
+				if g, e := outputs.Get3(i, b, t), r.out[b*T+t]; !bitsEq(g, e) {
+					o.fail("cell-output-differs", name+"/output", "%s, %d cells x %d timesteps: cell %d output %s[%d] = %v, the cell alone gives %v", name, N, T, i, desc.Outputs[b], t, g, e)
+					return o
+				}
+			}
+		}
+		for j := 0; j < width && j < len(r.fin); j++ {
+			if g, e := states.Get2(i, j), r.fin[j]; !bitsEq(g, e) {
+				o.fail("cell-state-differs", name+"/state", "%s, %d cells x %d timesteps: cell %d final state[%d] = %v, the cell alone gives %v", name, N, T, i, j, g, e)
+				return o
+			}
+		}
+		o.Checks += nOut*T + width
+	}
+	o.Nontrivial = true
+	o.probe("vectorised_run_with_a_million_or_more_cell_timesteps")
+	return o
 }
